@@ -121,6 +121,11 @@ DateCases == {[group |-> "date", ty |-> "DateTime", facet |-> f, delta |-> d, of
 ZoneCases == {[group |-> "zone", ty |-> "DateTime", facet |-> f, delta |-> d, how |-> h, valid |-> ValidDate(f, d)] :
                 f \in {"ge", "gt", "le", "lt"}, d \in {0 - 150, 0 - 90, 0 - 1, 0, 1, 90, 150}, h \in {"local", "z"}}
 
+\* a bound DECLARED without a zone (DateTime(ge=datetime(2020, 1, 1))) is an instant like any other - zone-less natives are in the
+\* library's local zone, which is UTC - and the facet is judged on instants: no request may end in anything but run / client fault
+NaiveBoundCases == {[group |-> "nbound", ty |-> "DateTime", facet |-> f, delta |-> d, off |-> o, valid |-> ValidDate(f, d)] :
+                      f \in {"ge", "gt", "le", "lt"}, d \in {0 - 30, 0 - 1, 0, 1, 30}, o \in {0, 60}}
+
 \* ------------------------------------------------- mandatory members, own and inherited
 \* Der(Bas{m: Integer, mandatory}){n: Integer, mandatory}: a value lacking either member is invalid, whichever class declared it
 InhCases == {[group |-> "inh", ty |-> "Der", omit |-> o, valid |-> o = "none"] : o \in {"none", "m", "n", "both"}}
@@ -179,7 +184,7 @@ OutCases == {[group |-> "out", ty |-> "ByteArray", facet |-> e, bytes |-> b, lit
 DateCasesMore == {[group |-> "date", ty |-> "DateTime", facet |-> f, delta |-> d, off |-> o, valid |-> ValidDate(f, d)] :
                    f \in DateFacets, d \in ((0 - 61)..61) \cup {0 - 90, 90, 0 - 720, 720}, o \in {0, 60, 0 - 60, 330, 0 - 570, 840}}
 CasesMore == NumCasesMore \cup DateCasesMore
-Cases == ObjArrCases \cup NumCases \cup BigCases \cup DecBoundCases \cup StrCases \cup EnumCases \cup OccCases \cup NilCases \cup DateCases \cup ZoneCases \cup TimeCases \cup InhCases \cup SubNameCases \cup AttrReqCases \cup LexCases
+Cases == ObjArrCases \cup NumCases \cup BigCases \cup DecBoundCases \cup StrCases \cup EnumCases \cup OccCases \cup NilCases \cup DateCases \cup ZoneCases \cup NaiveBoundCases \cup TimeCases \cup InhCases \cup SubNameCases \cup AttrReqCases \cup LexCases
 
 \* ---- laws of the table (anti-vacuity): every facet is effective - some probe is rejected by it
 \* alone - and admits something
